@@ -1,12 +1,16 @@
-(* Model of the core of export.ToHtml (value/export/html.go): the calls it issues on the XMLWriter
+(* Model of export.ToHtml (value/export/html.go): the calls it issues on the XMLWriter
    (AvoidShort, PrettyPrint) for scalars, floats (their text is taken as given), lists as numbered
-   tables and lists of lists as tables with the maxListSize cut-off, the "plainList" style, maps,
+   tables and lists of lists as tables with the maxListSize cut-off, the plainList style, maps,
    Format wrappers with string / css-map styles in both style modes (inline style attribute, or
-   class names c0, c1, ... with the class list), Cell and ColSpan in table cells, Link wrappers and
-   the http:// https:// host: link forms of strings.
-   A closure style whose evaluation fails (SCloErr) is the modelled source of errors.
-   Not modelled (covered by the correspondence run only): custom renderers, closure styles that succeed, table
-   formats (style key table), File values, nil, ToHtmlInterface values, errors of lazy list elements. *)
+   class names c0, c1, ... with the class list), Cell and ColSpan in table cells, Link wrappers, the
+   http:// https:// host: link forms of strings, File values (data: link with download name; base64 and
+   the size text are taken as given), table formats (style key table: rNcM, rN, cN, all with constant
+   styles, identity closures and failing closures, which tableExporter.format swallows), and closure styles
+   of Format: failing (SCloErr, also a panicking closure: ToHtml recovers it into an error) and
+   succeeding (HFmtClo: the value the closure returns for the wrapped value is part of the case).
+   Not modelled (covered by the correspondence run only): custom renderers (raw HTML: by definition they
+   can inject), table-format closures other than the identity that succeed (their result is rendered
+   instead of the item), nil, ToHtmlInterface values, errors of lazy list elements. *)
 From P2 Require Import Base.Prelude Exp.Json Exp.Xml.
 Local Open Scope N_scope.
 
@@ -14,7 +18,11 @@ Inductive sty :=
 | SNone
 | SStr (s : str)
 | SMap (l : list (str * str))      (* css map: key, value as text (String / strconv.Itoa of an Int) *)
-| SCloErr.                          (* a closure style with one argument whose evaluation returns an error *)
+| SCloErr                           (* a closure style with one argument whose evaluation returns an error *)
+| SCloId                            (* a closure with one argument that returns its argument *)
+| STab (css : list (str * str)) (tf : list (str * sty)).
+    (* a map style with the key table: css entries as in SMap, and the table format map
+       (keys rNcM, rN, cN, all; values: styles for the cells of a list of lists) *)
 
 Inductive hval :=
 | HS (s : str)                      (* any scalar but Float, through ToString *)
@@ -22,7 +30,11 @@ Inductive hval :=
 | HL (l : list hval)
 | HM (l : list (str * hval))        (* entries in iteration order *)
 | HFmt (cell : bool) (colspan : N) (style : sty) (v : hval)
-| HLnk (link : str) (v : hval).
+| HLnk (link : str) (v : hval)
+| HFmtClo (cell : bool) (colspan : N) (r : hval) (v : hval)
+    (* Format whose style is a closure with one argument that succeeds: r is the value the closure returns
+       for v (given with the case; the closure itself is the expression language's business) *)
+| HFile (name mime b64 size : str). (* export.File: name, MimeType, base64 of the data and the byteSize text (both Go's) *)
 
 Definition s_table : str := [116; 97; 98; 108; 101].
 Definition s_tr : str := [116; 114].
@@ -35,6 +47,15 @@ Definition s_blank : str := [95; 98; 108; 97; 110; 107].
 Definition s_style : str := [115; 116; 121; 108; 101].
 Definition s_class : str := [99; 108; 97; 115; 115].
 Definition s_colspan : str := [99; 111; 108; 115; 112; 97; 110].
+Definition s_download : str := [100; 111; 119; 110; 108; 111; 97; 100].
+Definition s_data : str := [100; 97; 116; 97; 58].                                   (* data: *)
+Definition s_b64 : str := [59; 98; 97; 115; 101; 54; 52; 44].                        (* ;base64, *)
+Definition s_octet : str :=                                                           (* application/octet-stream *)
+  [97;112;112;108;105;99;97;116;105;111;110;47;111;99;116;101;116;45;115;116;114;101;97;109].
+Definition s_File : str := [70; 105; 108; 101; 58; 32].                              (* File:  *)
+Definition file_href (mime b64 : str) : str :=
+  s_data ++ (match mime with [] => s_octet | _ => mime end) ++ s_b64 ++ b64.
+Definition file_text (name size : str) : str := s_File ++ name ++ [32; 40] ++ size ++ [41].
 Definition s_Link : str := [76; 105; 110; 107].
 Definition s_more : str := [109; 111; 114; 101; 46; 46; 46].
 Definition s_plainList : str := [112; 108; 97; 105; 110; 76; 105; 115; 116].
@@ -55,9 +76,9 @@ Definition replace_us (k : str) : str := map (fun c => if c =? 95 then 45 else c
 (* toStyleStr *)
 Definition style_str (st : sty) : option str :=
   match st with
-  | SNone | SCloErr => None
+  | SNone | SCloErr | SCloId => None
   | SStr s => Some s
-  | SMap l =>
+  | SMap l | STab l _ =>              (* the table entry is a map: not part of the style string *)
       match l with
       | [] => None
       | _ =>
@@ -69,9 +90,32 @@ Definition style_str (st : sty) : option str :=
 (* hasKey(style, "plainList") *)
 Definition has_plain (st : sty) : bool :=
   match st with
-  | SNone | SCloErr => false
+  | SNone | SCloErr | SCloId => false
   | SStr s => str_eqb s s_plainList
-  | SMap l => existsb (fun kv => str_eqb (fst kv) s_plainList) l
+  | SMap l | STab l _ => existsb (fun kv => str_eqb (fst kv) s_plainList) l
+  end.
+
+(* tableExporter.open: the table format of a style *)
+Definition tf_of (st : sty) : list (str * sty) :=
+  match st with STab _ tf => tf | _ => [] end.
+
+(* the cell at (row, col) is rendered as toTD(item): no format, or an identity closure *)
+Definition cell_plain (o : option sty) : bool :=
+  match o with None | Some SCloId => true | Some _ => false end.
+
+(* tableExporter.format: r<row>c<col>, then r<row>, then c<col>, then all *)
+Definition tf_lookup (tf : list (str * sty)) (row col : N) : option sty :=
+  match assoc (114 :: itoa row ++ 99 :: itoa col) tf with
+  | Some f => Some f
+  | None =>
+      match assoc (114 :: itoa row) tf with
+      | Some f => Some f
+      | None =>
+          match assoc (99 :: itoa col) tf with
+          | Some f => Some f
+          | None => assoc [97; 108; 108] tf
+          end
+      end
   end.
 
 Fixpoint index_of (s : str) (l : list str) (i : N) : option N :=
@@ -146,14 +190,20 @@ Fixpoint simple_rows (l : list hval) (i : N) (cls : list str) : res :=
       else Some (OOpen s_tr :: num ++ more_td ++ [OClose], cls)
   end.
 
+End Loops.
+
+Section TableLoops.
+Variable maxl : N.
+Variable cell : N -> N -> hval -> list str -> res.     (* toTD(format(row, col, item)) *)
+
 (* the cells of one table row *)
-Fixpoint table_cells (c : list hval) (col : N) (cls : list str) : res :=
+Fixpoint table_cells (row : N) (c : list hval) (col : N) (cls : list str) : res :=
   match c with
   | [] => Some ([], cls)
   | y :: c' =>
       if col <=? maxl then
-        bind (td y cls) (fun o cls1 =>
-        bind (table_cells c' (col + 1) cls1) (fun os cls2 =>
+        bind (cell row col y cls) (fun o cls1 =>
+        bind (table_cells row c' (col + 1) cls1) (fun os cls2 =>
         Some (o ++ os, cls2)))
       else Some (more_td, cls)
   end.
@@ -165,15 +215,15 @@ Fixpoint table_rows (l : list hval) (row : N) (cls : list str) : res :=
   | x :: r =>
       if row <=? maxl then
         bind (match x with
-              | HL cols => table_cells cols 1 cls
-              | _ => if 1 <=? maxl then td x cls else Some (more_td, cls)
+              | HL cols => table_cells row cols 1 cls
+              | _ => if 1 <=? maxl then cell row 1 x cls else Some (more_td, cls)
               end) (fun cells cls1 =>
         bind (table_rows r (row + 1) cls1) (fun os cls2 =>
         Some (OOpen s_tr :: cells ++ OClose :: os, cls2)))
       else Some (OOpen s_tr :: more_td ++ [OClose], cls)
   end.
 
-End Loops.
+End TableLoops.
 
 (* the elements of a plainList *)
 Section Plain.
@@ -212,7 +262,23 @@ Definition to_td_with (html : hval -> sty -> list str -> res) (d : hval) (cls : 
       else
         let '(a, cls1) := style_attr inline fst_ cls in
         bind (html inner SNone cls1) (fun o cls2 => Some (OOpen s_td :: span ++ a ++ o ++ [OClose], cls2))
+  | HFmtClo cell cs r inner =>
+      let span := if 1 <? cs then [OAttr s_colspan (itoa cs)] else [] in
+      if is_HL inner && negb cell then       (* toHtml(inner, closure) = toHtml(closure(inner), nil) *)
+        bind (html r SNone cls) (fun o cls1 => Some (OOpen s_td :: span ++ o ++ [OClose], cls1))
+      else                                   (* a closure gives no style string; it is not evaluated *)
+        bind (html inner SNone cls) (fun o cls1 => Some (OOpen s_td :: span ++ o ++ [OClose], cls1))
   | _ => bind (html d SNone cls) (fun o cls1 => Some (OOpen s_td :: o ++ [OClose], cls1))
+  end.
+
+(* toTD(format(row, col, item)): with a format f for the cell, format returns Format{item, f, Cell: true} *)
+Definition cell_with (html : hval -> sty -> list str -> res) (tf : list (str * sty)) (row col : N)
+  (y : hval) (cls : list str) : res :=
+  match tf_lookup tf row col with
+  | None | Some SCloId => to_td_with html y cls      (* a closure format returns its result: here the item *)
+  | Some f =>
+      let '(a, cls1) := style_attr inline f cls in
+      bind (html y SNone cls1) (fun o cls2 => Some (OOpen s_td :: a ++ o ++ [OClose], cls2))
   end.
 
 (* toHtml(v, style); the class list is threaded through *)
@@ -223,9 +289,13 @@ Fixpoint to_html (v : hval) (st : sty) (cls : list str) {struct v} : res :=
   let to_td := to_td_with to_html in
   match v with
   | HFmt _ _ f inner => to_html inner f cls
+  | HFmtClo _ _ r _ => to_html r SNone cls           (* res := cl.Eval(st, v); return toHtml(res, nil) *)
   | HLnk l inner =>
       bind (to_html inner st cls) (fun o cls1 => Some (OOpen s_a :: OAttr s_href l :: o ++ [OClose], cls1))
   | HFloat s => Some ([OWrite s], cls)
+  | HFile name mime b64 size =>
+      Some ([OOpen s_a; OAttr s_href (file_href mime b64); OAttr s_download name;
+             OWrite (file_text name size); OClose], cls)
   | HS s => Some (html_string inline s st cls)
   | HM l =>
       let '(a, cls0) := style_attr inline st cls in
@@ -238,7 +308,7 @@ Fixpoint to_html (v : hval) (st : sty) (cls : list str) {struct v} : res :=
         | [] => Some ([], cls)
         | first :: _ =>
             let '(a, cls0) := style_attr inline st cls in
-            bind (if is_HL first then table_rows maxl to_td items 1 cls0      (* tableExporter *)
+            bind (if is_HL first then table_rows maxl (cell_with to_html (tf_of st)) items 1 cls0   (* tableExporter *)
                   else simple_rows maxl to_td items 1 cls0)                   (* simpleListExporter *)
                  (fun rows clsN => Some (OOpen s_table :: a ++ rows ++ [OClose], clsN))
         end
@@ -267,7 +337,7 @@ Definition to_html_doc (tt ta : esc_table) (maxl : N) (inline : bool) (v : hval)
 
 (* the constant element and attribute names of ToHtml *)
 Definition html_elems : list str := [s_table; s_tr; s_td; s_a; s_span].
-Definition html_attrs : list str := [s_href; s_target; s_style; s_class; s_colspan; [100; 111; 119; 110; 108; 111; 97; 100]].
+Definition html_attrs : list str := [s_href; s_target; s_style; s_class; s_colspan; s_download].
 
 Definition mem_str (s : str) (l : list str) : bool := existsb (str_eqb s) l.
 
@@ -289,11 +359,13 @@ Definition hnames : node -> bool := names_in html_elems html_attrs.
 Definition eff_max (maxl : N) : N := if maxl <? 1 then 1 else maxl.
 
 (* all strings of the value (texts, keys, link targets, style strings, css keys and values) are legal XML characters *)
-Definition legal_sty (st : sty) : bool :=
+Fixpoint legal_sty (st : sty) : bool :=
   match st with
-  | SNone | SCloErr => true
+  | SNone | SCloErr | SCloId => true
   | SStr s => legal s
   | SMap l => forallb (fun kv => legal (fst kv) && legal (snd kv)) l
+  | STab l tf => forallb (fun kv => legal (fst kv) && legal (snd kv)) l &&
+                 forallb (fun kv => legal_sty (snd kv)) tf
   end.
 
 Fixpoint legal_h (v : hval) : bool :=
@@ -303,17 +375,20 @@ Fixpoint legal_h (v : hval) : bool :=
   | HM l => forallb (fun kv => legal (fst kv) && legal_h (snd kv)) l
   | HFmt _ _ st v => legal_sty st && legal_h v
   | HLnk l v => legal l && legal_h v
+  | HFmtClo _ _ r v => legal_h r && legal_h v
+  | HFile name mime b64 size => legal name && legal mime && legal b64 && legal size
   end.
 
 (* no plainList style anywhere: plainList writes list elements side by side, i.e. mixed content, into which
    PrettyPrint puts its line breaks and indentation *)
 Fixpoint pfree (v : hval) : bool :=
   match v with
-  | HS _ | HFloat _ => true
+  | HS _ | HFloat _ | HFile _ _ _ _ => true
   | HL l => forallb pfree l
   | HM l => forallb (fun kv => pfree (snd kv)) l
   | HFmt _ _ st v => negb (has_plain st) && pfree v
   | HLnk _ v => pfree v
+  | HFmtClo _ _ r v => pfree r && pfree v
   end.
 
 (* when rendering must fail: toHtml(v, st) reaches, within the maxListSize cut-offs, a value whose style is a
@@ -325,6 +400,7 @@ Inductive fails : hval -> sty -> Prop :=
 | F_here : forall v, fails v SCloErr
 | F_fmt : forall c cs f inner st, fails inner f -> fails (HFmt c cs f inner) st
 | F_lnk : forall l inner st, fails inner st -> fails (HLnk l inner) st
+| F_clo : forall c cs r inner st, fails r SNone -> fails (HFmtClo c cs r inner) st
 | F_map : forall l k e st, In (k, e) l -> fails_td e -> fails (HM l) st
 | F_plain : forall items e st, has_plain st = true -> In e items -> fails e SNone -> fails (HL items) st
 | F_list : forall items first i e st, has_plain st = false ->
@@ -332,15 +408,30 @@ Inductive fails : hval -> sty -> Prop :=
     nth_error items i = Some e -> N.of_nat i < maxl -> fails_td e -> fails (HL items) st
 | F_row : forall items first r x st, has_plain st = false ->
     nth_error items 0 = Some first -> is_HL first = true ->
-    nth_error items r = Some x -> N.of_nat r < maxl -> is_HL x = false -> fails_td x -> fails (HL items) st
+    nth_error items r = Some x -> N.of_nat r < maxl -> is_HL x = false ->
+    cell_plain (tf_lookup (tf_of st) (N.of_nat r + 1) 1) = true -> fails_td x -> fails (HL items) st
+| F_row_fmt : forall items first r x f st, has_plain st = false ->
+    nth_error items 0 = Some first -> is_HL first = true ->
+    nth_error items r = Some x -> N.of_nat r < maxl -> is_HL x = false ->
+    tf_lookup (tf_of st) (N.of_nat r + 1) 1 = Some f -> f <> SCloId -> fails x SNone -> fails (HL items) st
 | F_cell : forall items first r cols c y st, has_plain st = false ->
     nth_error items 0 = Some first -> is_HL first = true ->
     nth_error items r = Some (HL cols) -> N.of_nat r < maxl ->
-    nth_error cols c = Some y -> N.of_nat c < maxl -> fails_td y -> fails (HL items) st
+    nth_error cols c = Some y -> N.of_nat c < maxl ->
+    cell_plain (tf_lookup (tf_of st) (N.of_nat r + 1) (N.of_nat c + 1)) = true -> fails_td y -> fails (HL items) st
+| F_cell_fmt : forall items first r cols c y f st, has_plain st = false ->
+    nth_error items 0 = Some first -> is_HL first = true ->
+    nth_error items r = Some (HL cols) -> N.of_nat r < maxl ->
+    nth_error cols c = Some y -> N.of_nat c < maxl ->
+    tf_lookup (tf_of st) (N.of_nat r + 1) (N.of_nat c + 1) = Some f -> f <> SCloId -> fails y SNone -> fails (HL items) st
 with fails_td : hval -> Prop :=
 | T_list : forall cs f inner, is_HL inner = true -> fails inner f -> fails_td (HFmt false cs f inner)
 | T_other : forall cell cs f inner, is_HL inner && negb cell = false -> fails inner SNone ->
     fails_td (HFmt cell cs f inner)
-| T_plain : forall d, (match d with HFmt _ _ _ _ => false | _ => true end) = true -> fails d SNone -> fails_td d.
+| T_clo_list : forall cs r inner, is_HL inner = true -> fails r SNone -> fails_td (HFmtClo false cs r inner)
+| T_clo_other : forall cell cs r inner, is_HL inner && negb cell = false -> fails inner SNone ->
+    fails_td (HFmtClo cell cs r inner)
+| T_plain : forall d, (match d with HFmt _ _ _ _ | HFmtClo _ _ _ _ => false | _ => true end) = true ->
+    fails d SNone -> fails_td d.
 
 End Fails.
